@@ -150,7 +150,23 @@ func init() {
 		if strings.HasSuffix(c.V.Oracle, "versions/phantom") {
 			return is(c.V.OpVer)
 		}
-		return false
+		// an earlier operation of the history loaded a phantom version (the model says that version does not
+		// exist at that point, the storage still holds a record under its root key): everything read afterwards
+		// is that version's stale tree
+		hit := false
+		modelTraceFrom(c.Base, c.Cfg, c.Hist, func(i int, m *Model, op Op) {
+			switch op.Kind {
+			case OpLoadVersion, OpLVFO, OpDelFrom:
+				if op.Ver > 0 && !m.Has(op.Ver) && is(op.Ver) {
+					hit = true
+				}
+			case OpReopen:
+				if op.Ver > 0 && !m.Has(op.Ver) && is(op.Ver) {
+					hit = true
+				}
+			}
+		})
+		return hit
 	}
 }
 
